@@ -88,6 +88,14 @@ func saneAlloc(rng *rand.Rand) (*rpc.NetConf, rpc.IPType) {
 	if rng.Intn(2) == 0 {
 		nc.ExtraRoutes = []*rpc.Route{{Dst: "192.168.0.0/16"}}
 	}
+	if rng.Intn(3) == 0 {
+		// extra routes are the user's (pod-networks / pod-networks-request annotation); nothing between the
+		// annotation and the plugin validates their destination
+		dsts := []string{"10.0.0.0", "", "10.0.0.0/33", "::/129", "garbage", "fd00::/64", "0.0.0.0/0", "10.0.0.0/8 ", "/24"}
+		for k, n := 0, 1+rng.Intn(2); k < n; k++ {
+			nc.ExtraRoutes = append(nc.ExtraRoutes, &rpc.Route{Dst: dsts[rng.Intn(len(dsts))]})
+		}
+	}
 	return nc, []rpc.IPType{rpc.IPType_TypeENIMultiIP, rpc.IPType_TypeVPCENI}[rng.Intn(2)]
 }
 
